@@ -133,6 +133,7 @@ func rulesC04(c *Ctx) {
 		"NOT decided: completeness of proof builders (that every node on the path is included), collision resistance, behaviour of remote-backed trees under arbitrary response sequences, correctness of node hashing itself (C02).")
 	verifierCore(c, "C04.verify")
 	c04IterErr(c)
+	c04Round4(c)
 	ix := c.P.BuildIndex()
 
 	const rs = "storage/mkvs.(*cache).remoteSync"
